@@ -3,6 +3,7 @@ From Coq Require Import List ZArith NArith Bool.
 From BS Require Import Base.Sexp Base.Types Model.Render Model.Reparse Model.SmartQuotes Model.Build Spec.BuildSpec Spec.RoundTrip.
 From BS Require Import Gen.Tables Gen.T_C05.
 From BS Require Model.EntitySubst.
+From BS Require Import Model.Attrs Model.Adapter Model.Tokenizer Model.TokParse Spec.DocWrite Spec.RenderTok.
 Import ListNotations.
 Open Scope Z_scope.
 
@@ -76,6 +77,13 @@ Definition rcfg_v (void : list str) (check : bool) : rcfg := mkrcfg void htmlpar
 Definition bcfg_v (void : list str) : bconfig :=
   mkcfg (Some void) default_preserve_whitespace_tags default_string_containers ascii_spaces root_tag_name.
 
+(* the html.parser route on the rendered STRING (Props.C05 C05_string_round_trip_partial): tokenizer model, adapter model,
+   documented construction rules; html.unescape = C09's model *)
+Definition html_acfg : acfg := mkacfg html_bcfg DupReplace (fun d _ _ => d) true None.
+Definition string_reread (text : str) : list Build.event :=
+  events_of (fst (fst (adapter_run html_acfg [] (callbacks EntitySubst.unescape text)))).
+Definition fmt_g (f : fmt) (s : str) : str := match f_subst f with Some g => g s | None => s end.
+
 Definition disp_c05 (sub : Z) (args : list sexp) : sexp :=
   match sub, args with
   | 0, f :: enc :: lv :: t :: _ => sstr (decode (gbool enc) (g_fmt f) (g_level lv) (g_tree t))
@@ -109,5 +117,37 @@ Definition disp_c05 (sub : Z) (args : list sexp) : sexp :=
       let cfg := bcfg_v (glist gstr v) in
       slist s_snode (spec_run cfg (read_tokens read_text EntitySubst.unescape (rcfg_v (glist gstr v) (gbool chk))
                                      (tokens_of (gbool enc) (g_fmt f) (g_tree t))))
+  (* (5020 fmt enc chk tree) -> C05_string_round_trip_partial evaluated: covered?, representable?, not rejected, the tree
+     built from the rendered string, the promised tree *)
+  | 20, f :: enc :: chk :: t :: _ =>
+      let fm := g_fmt f in let tr := g_tree t in let rc := html_rcfg (gbool chk) in
+      let text := decode (gbool enc) fm None tr in
+      let cov := toks_covered rc (tokens_of (gbool enc) fm tr) in
+      L [sbool cov; sbool (representable_top fm rc html_bcfg tr);
+         sbool (negb (rejected EntitySubst.unescape text));
+         if cov then slist s_snode (spec_run html_bcfg (string_reread text)) else L [];
+         if cov then slist s_snode (flat_tree html_bcfg (norm (gbool enc) fm html_bcfg tr)) else L []]
+  (* (5021 fmt strings) -> the theorem's hypotheses on these strings: text_value (g s) = s; the model's
+     html.unescape (attr_inner (g s)) = s; and attr_inner (g s) itself (for the real html.unescape) *)
+  | 21, f :: ss :: _ =>
+      let fm := g_fmt f in
+      slist (fun s => L [sbool (str_eqb (text_value None (fmt_g fm s)) s);
+                         sbool (str_eqb (attr_read EntitySubst.unescape (attr_inner (fmt_g fm s))) s);
+                         sstr (attr_inner (fmt_g fm s))]) (glist gstr ss)
+  (* (5022 fmt enc chk tree) -> why a tree is outside the covered sub-domain: per uncovered token its kind and the
+     conjuncts of tok_covered *)
+  | 22, f :: enc :: chk :: t :: _ =>
+      let fm := g_fmt f in let rc := html_rcfg (gbool chk) in
+      slist (fun tok =>
+               match tok with
+               | TOpen n a => L [A 0; sbool (simple_name n); sbool (negb (memS n (r_void rc))); sbool (negb (memS n (r_cdata rc)));
+                                 sbool (quoted_attrs a); sbool (nodup_keys a)]
+               | TEmptyTag n a sl => L [A 1; sbool (simple_name n); sbool (str_eqb sl [47%N]); sbool (quoted_attrs a); sbool (nodup_keys a)]
+               | TClose n => L [A 2; sbool (simple_name n)]
+               | TText s => L [A 3; sstr s]
+               | TSpecial c s => L [A 4; sN c]
+               | TNone => L [A 5]
+               end)
+            (filter (fun tok => negb (tok_covered rc tok)) (tokens_of (gbool enc) fm (g_tree t)))
   | _, _ => A (-1)
   end.
